@@ -64,7 +64,8 @@ Section Probs.
     assert (E : resample_probs x ll lp lq b0 b = map (fun t => t / vsum w) w) by reflexivity.
     assert (Hw : w = softmax incr_lw).
     { unfold w. rewrite log_weights_fn, unnormalized_log_weights_spec by auto. fold incr_lw.
-      assert (Hn : map (fun t => t + (logsumexp incr_lw - ln (vlen x))) incr_lw <> []).
+      change (fun t : R => t - (logsumexp incr_lw - ln (vlen x))) with (fun t : R => t + - (logsumexp incr_lw - ln (vlen x))).
+      assert (Hn : map (fun t => t + - (logsumexp incr_lw - ln (vlen x))) incr_lw <> []).
       { pose proof incr_lw_ne. destruct incr_lw; simpl; congruence. }
       rewrite (softmax_lse _ Hn). apply softmax_shift. apply incr_lw_ne. }
     rewrite E, Hw, (softmax_sum _ incr_lw_ne).
